@@ -3,7 +3,9 @@
    (result, (active term count, raw tails, words of each of the three partitions that changed since the previous
    observation, as (offset, value now)), position()).
    The predicate is stated from the geometry, the operations and the observations alone - it does not run the model. *)
-Require Import V.Base.MachineInt V.Generated.GenConsts V.Model.LogBase.
+Require Import V.Base.MachineInt.
+Require Import V.Generated.GenConsts.
+Require Import V.Model.LogBase.
 Open Scope Z_scope.
 
 Record geom := mkGeom { g_tlen : Z; g_mtu : Z; g_init : Z; g_n0 : Z; g_off0 : Z; g_session : Z; g_stream : Z }.
